@@ -38,7 +38,7 @@ def run(ctx):
     t2 = t2 + t3
     n2 += n3
     res = lib.validate(ctx, "H1ServerTrace", "H1ServerTrace.cfg", t1 + t2, timeout=1800)
-    lib.handle_rejections(ctx, res, lambda cl: rerun(ctx, cl))
+    lib.handle_rejections(ctx, res, lambda cl: rerun(ctx, cl), rerun_hist=lambda seq: h1common.rerun_h1srv_hist(ctx, seq))
 
     def change_value(recs):
         # what a split-dependent parse looks like: one fragmentation sees a different header value
